@@ -1,6 +1,33 @@
-"""C07 — decided on the session machine."""
+"""C07 — decided on the session machine, plus a re-read under the lock racing an older in-flight read."""
+import json
+
+from lib import vf
 from lib.props import _mach
 
 
 def run(ctx):
     _mach.run_modes(ctx, ['conc', 'crash', 'history'], ['c07'])
+    # The machine's steps execute a store command and deliver its reply at once. Here one read is executed before the lock holder's
+    # write and delivered after it, on the replica where the next lock holder does its re-read: each refresh-token value may still be
+    # presented to the provider at most once, and at most one grant may succeed in the cooldown window.
+    pre = ctx.path("inflight")
+    out, dt = vf.run_driver(["inflight", "-out", pre, "-seed", str(ctx.seed), "-tier", ctx.tier])
+    ctx.timings["inflight"] = round(dt, 2)
+    n = 0
+    for line in open(pre + ".obs"):
+        d = json.loads(line)
+        if d.get("kind") != "reread":
+            continue
+        n += 1
+        rts = [p["rt"] for p in d["presented"]]
+        if len(rts) != len(set(rts)):
+            ctx.violation("c07-rt-presented-twice", "a refresh-token value was presented to the provider twice (the re-read under the lock was served by a store read that "
+                          "had been executed before the previous lock holder stored the new pair)", d)
+        if sum(1 for p in d["presented"] if p["accepted"]) > 1:
+            ctx.violation("c07-two-grants-in-cooldown", "two refresh grants succeeded within one cooldown window", d)
+        if not d["all_done"]:
+            ctx.violation("c07-request-stuck", "a request never completed", d)
+    ctx.evals += n
+    ctx.nontrivial += n
+    ctx.extra["reread_vs_older_read_scenarios"] = n
+    ctx.rule += "; plus %d scenarios {waiting request kind} x {reading request kind} in which a read executed before the lock holder's write is delivered after it" % n
